@@ -19,6 +19,12 @@ func tmUnix(t *Term) *Term {
 
 func timeZero() *Term { return B.Const("time.zero", STime) }
 
+// tmUTC(t): the time value carries the UTC location (calendar fields are read in UTC).
+func tmUTC(t *Term) *Term {
+	B.DeclareFun("tm.utc", []string{STime}, SBool)
+	return B.App("tm.utc", SBool, t)
+}
+
 // zero time is year 1: far before any real instant
 var zeroUnixNs = new(big.Int).Mul(big.NewInt(-62135596800), big.NewInt(1000000000))
 
@@ -46,8 +52,12 @@ func init() {
 		return Scalar{t}
 	})
 	pure("time.Now")
-	reg("(time.Time).UTC", "same instant (location only affects rendering; all uses in the repository render in UTC)", func(fr *Frame, in ssa.Instruction, st *State, args []Value, rt types.Type) Value {
-		return args[0]
+	reg("(time.Time).UTC", "same instant, location UTC", func(fr *Frame, in ssa.Instruction, st *State, args []Value, rt types.Type) Value {
+		B.DeclareFun("tm.toutc", []string{STime}, STime)
+		r := B.App("tm.toutc", STime, tv(args[0]))
+		fr.p.timeFacts(r)
+		fr.p.assume(True(), And(Eq(tmUnix(r), tmUnix(tv(args[0]))), tmUTC(r)))
+		return Scalar{r}
 	})
 	pure("(time.Time).UTC")
 	reg("(time.Time).IsZero", "t is the zero instant", func(fr *Frame, in ssa.Instruction, st *State, args []Value, rt types.Type) Value {
@@ -80,6 +90,7 @@ func init() {
 		p := fr.p
 		r := B.Fresh("tadd", STime)
 		p.assume(True(), Eq(tmUnix(r), IntAdd(tmUnix(tv(args[0])), intOfDuration(tv(args[1])))))
+		p.assume(True(), Eq(tmUTC(r), tmUTC(tv(args[0]))))
 		return Scalar{r}
 	})
 	pure("(time.Time).Add")
@@ -98,7 +109,7 @@ func init() {
 		B.DeclareFun("tm.date", []string{SBV(64), SBV(64), SBV(64)}, STime)
 		return B.App("tm.date", STime, y, m, d)
 	}
-	reg("(time.Time).Date", "y,m,d with Date(y,m,d,0,0,0,0,UTC) <= t < +24h for a UTC time (calendar assumed, validated bounded)", func(fr *Frame, in ssa.Instruction, st *State, args []Value, rt types.Type) Value {
+	reg("(time.Time).Date", "y,m,d; if t carries the UTC location: Date(y,m,d,0,0,0,0,UTC) <= t < +24h (calendar assumed)", func(fr *Frame, in ssa.Instruction, st *State, args []Value, rt types.Type) Value {
 		p := fr.p
 		t := tv(args[0])
 		B.DeclareFun("tm.year", []string{STime}, SBV(64))
@@ -107,7 +118,9 @@ func init() {
 		y, m, d := B.App("tm.year", SBV(64), t), B.App("tm.month", SBV(64), t), B.App("tm.day", SBV(64), t)
 		mid := dateFn(y, m, d)
 		day := IntConst(big.NewInt(nsPerDay))
-		p.assume(True(), And(IntLe(tmUnix(mid), tmUnix(t)), IntLt(tmUnix(t), IntAdd(tmUnix(mid), day))))
+		// the fields are those of the UTC calendar only if t carries the UTC location; for any other
+		// location they belong to a day that may differ from the UTC day
+		p.assume(True(), Implies(tmUTC(t), And(IntLe(tmUnix(mid), tmUnix(t)), IntLt(tmUnix(t), IntAdd(tmUnix(mid), day)))))
 		p.assume(True(), And(BVSle(BVInt(1, 64), m), BVSle(m, BVInt(12, 64)), BVSle(BVInt(1, 64), d), BVSle(d, BVInt(31, 64))))
 		p.assume(True(), And(BVSle(BVInt(0, 64), y), BVSle(y, BVInt(1<<40, 64))))
 		return TupleV{Scalar{y}, Scalar{m}, Scalar{d}}
@@ -122,6 +135,9 @@ func init() {
 		}
 		y, m, d := tv(args[0]), tv(args[1]), tv(args[2])
 		r := dateFn(y, m, d)
+		if locIsUTC(in) {
+			p.assume(True(), tmUTC(r))
+		}
 		// normalisation axiom instance: if d is syntactically base+k, relate to the base day
 		if d.Op == "bvadd" && len(d.Args) == 2 {
 			base, k := d.Args[0], d.Args[1]
@@ -155,7 +171,7 @@ func init() {
 			case strLit("2006-01-02"):
 				p.assume(True(), Eq(strLen(s), BVInt(10, 64)))
 				day := IntConst(big.NewInt(nsPerDay))
-				p.assume(True(), And(IntLe(tmUnix(pt), tmUnix(t)), IntLt(tmUnix(t), IntAdd(tmUnix(pt), day))))
+				p.assume(True(), Implies(tmUTC(t), And(IntLe(tmUnix(pt), tmUnix(t)), IntLt(tmUnix(t), IntAdd(tmUnix(pt), day)))))
 			case strLit("2006-01-02T15:04:05Z07:00"):
 				sec := IntConst(big.NewInt(1000000000))
 				p.assume(True(), And(IntLe(tmUnix(pt), tmUnix(t)), IntLt(tmUnix(t), IntAdd(tmUnix(pt), sec))))
@@ -174,6 +190,8 @@ func init() {
 		res := Ite(ok, pt, timeZero())
 		if layout == strLit("2006-01-02") {
 			p.assume(True(), Implies(ok, Eq(strLen(s), BVInt(10, 64))))
+			// a layout without a zone parses as UTC
+			p.assume(True(), Implies(ok, tmUTC(pt)))
 		}
 		p.assume(True(), Implies(ok, IntLt(IntConst(zeroUnixNs), tmUnix(pt))))
 		return TupleV{Scalar{res}, IfaceV{Ref: e}}
@@ -190,4 +208,26 @@ func tmParse(layout, s *Term) (*Term, *Term) {
 	B.DeclareFun("tm.parse", []string{SStr, SStr}, STime)
 	B.DeclareFun("tm.parseok", []string{SStr, SStr}, SBool)
 	return B.App("tm.parse", STime, layout, s), B.App("tm.parseok", SBool, layout, s)
+}
+
+// locIsUTC: the call passes the package variable time.UTC as its last argument (or is evaluated
+// inside a contract, where time.UTC is the only location written).
+func locIsUTC(in ssa.Instruction) bool {
+	if in == nil {
+		return true
+	}
+	ci, ok := in.(ssa.CallInstruction)
+	if !ok {
+		return false
+	}
+	a := ci.Common().Args
+	if len(a) == 0 {
+		return false
+	}
+	if u, ok := a[len(a)-1].(*ssa.UnOp); ok {
+		if g, ok := u.X.(*ssa.Global); ok && g.Name() == "UTC" && g.Pkg != nil && g.Pkg.Pkg.Path() == "time" {
+			return true
+		}
+	}
+	return false
 }
